@@ -151,7 +151,8 @@ impl InnerInMemory {
             // the search name is less than the next NSEC record
             if *name < next_domain_name.into() ||
                 // this is the last record, and wraps to the beginning of the zone
-                next_domain_name < rr_set.name()
+                // (in a zone whose only name is the apex it points at itself)
+                next_domain_name <= rr_set.name()
             {
                 return Some(rr_set.clone());
             }
